@@ -75,6 +75,12 @@ class LiteDRAMWishbone2Native(LiteXModule):
         ]
         fsm.act("WRITE",
             NextValue(aborted, ~wishbone.cyc | aborted),
+            If(~wishbone.cyc | aborted,
+                # Cycle dropped by the master: the write command has already been accepted, complete
+                # its data phase with no byte enabled instead of waiting for (or stealing) another access.
+                port.wdata.valid.eq(1),
+                port.wdata.we.eq(0),
+            ),
             If(port.wdata.valid & port.wdata.ready,
                 wishbone.ack.eq(wishbone.cyc & ~aborted),
                 NextState("CMD")
